@@ -136,9 +136,11 @@ CLAIMS = {
              "than 2R apart or the pair predicate was evaluated on exactly that pair and said no - the shell count "
              "ceil(2R/(sin(angle) min(a,b))) the code computes is proved sufficient.  For circle and trimer shapes this is lifted "
              "to the plane: no point is interior to two copies of the tiling.  For convex polygon shapes "
-             "(C01_scored_convex_polygon_packing, using the completeness theorem of C12): two placed copies that are closed convex "
-             "polygons and share an interior point are more than 2R apart or one has all its vertices strictly inside the other "
-             "(that congruent copies cannot nest is not proved).  The monitor "
+             "(C01_scored_convex_shape_packing_no_overlap; hypotheses: the SHAPE is a closed convex polygon, the radius is the one "
+             "the code computes): two placed copies share no interior point unless one has all its vertices strictly inside the "
+             "other - the checked pairs by the completeness theorem of C12, the far pairs because a closed convex polygon lies "
+             "within the circle through its farthest vertex (C01_inside_within_radius); rigid placements keep convexity "
+             "(C01_placed_convex).  That congruent copies cannot nest is not proved.  The monitor "
              "searches all generated states (flat cells, copies near opposite faces, aligned/clamped states, optimiser outputs) "
              "with an independent separating-axis lattice oracle over one more shell than needed.",
         note=GEOM_NOTE),
